@@ -519,7 +519,12 @@ pub fn scan(src: &str) -> Scan {
                 }
                 TagEnd::Item => {
                     close!();
-                    frames.pop();
+                    // (an item that ends without having added a block carries nothing and does not count)
+                    let f = frames.pop().unwrap();
+                    if out.atoms.len() == f.atoms_at_start {
+                        let p = frames.last_mut().unwrap();
+                        p.item_count = p.item_count.saturating_sub(1);
+                    }
                 }
                 TagEnd::List(_) => {
                     close!();
